@@ -236,6 +236,46 @@ def _twin_f(x):
     return [math.atan2(x[0], -1.0) + x[1], math.copysign(1.0, x[0]) * (1.0 + x[1])]
 
 
+def _penalty_f(x):
+    # legitimate non-finite objective values: +inf / -inf penalties, a NaN for a failed evaluation
+    return [float("inf") if x[0] > 0.5 else (float("nan") if x[0] < -0.9 else x[0] * 1e308 * 10 if x[0] == 0.125 else x[0]),
+            float("-inf") if x[1] < -0.5 else x[1] * 3.0]
+
+
+def check_penalty_batches(ctx, rng):
+    """objective values that are infinite or NaN are values like any other: what a solution holds after the batch is what
+    the function returned for its variables, under every evaluator"""
+    from platypus import Problem, Real
+    f = _penalty_f
+    p = Problem(2, 2, function=f)
+    p.types[:] = Real(-1, 1)
+    for evname in ("map", "pickle", "thread"):
+        for layout in ([[0.75, 0.0], [0.25, -0.75], [0.9, -0.9]], [[-0.95, 0.1], [0.125, 0.2], [0.3, 0.3], [0.6, -0.6]],
+                       [[rng.choice([0.75, -0.95, 0.125, 0.25]), rng.choice([-0.75, 0.5])] for _ in range(7)]):
+            tr = tracer.Trace()
+            ev, closer = tracer.make_evaluator(evname, tr)
+            alg = DummyAlg(p, evaluator=ev)
+            sols = []
+            for v in layout:
+                s_ = C.Solution(p)
+                s_.variables[:] = list(v)
+                sols.append(s_)
+            r = call(alg.evaluate_all, sols)
+            if closer:
+                closer()
+            inp = {"batch": layout, "evaluator": evname, "function": "+inf for x0 > 0.5, NaN for x0 < -0.9, overflow to inf at x0 = 0.125, -inf for x1 < -0.5"}
+            if isinstance(r, str):
+                ctx.fail("evaluate_all-raises", inp, r, "batch evaluated", "core.Algorithm.evaluate_all")
+                continue
+            for i, (s_, v) in enumerate(zip(sols, layout)):
+                if not s_.evaluated or [repr(float(o)) for o in s_.objectives] != [repr(float(o)) for o in f(v)]:
+                    ctx.fail("objectives-do-not-belong-to-variables", dict(inp, index=i), [s_.evaluated, [repr(o) for o in s_.objectives]], [True, [repr(o) for o in f(v)]],
+                             "core.Algorithm.evaluate_all")
+                    break
+            ctx.case(("penalties", evname, repr(layout)), True)
+    ctx.count("non_finite_objective_batches")
+
+
 def check_twin_batches(ctx, rng):
     """batches containing decision vectors that compare equal but are different inputs (0.0 / -0.0), or that are identical:
     every member is evaluated as itself"""
@@ -412,6 +452,7 @@ def run(ctx, drv):
     # ---- (c) (d)
     check_mixed_batches(ctx, rng)
     check_twin_batches(ctx, rng)
+    check_penalty_batches(ctx, rng)
     check_experiment(ctx, rng)
     if drv.ok:
         out = drv.batch(reqs)
